@@ -33,7 +33,7 @@ CONSTANTS LegacyCustomFlush,   \* TRUE: FLUSH_JOB_CUSTOM_* hands the job back ev
           Fuel,     \* bound on loop iterations (loops that exceed it are reported, see ok)
           LogStages \* keep the stage log (model checking) or not (trace replay)
 
-OS(n, r) == INSTANCE OooLanes WITH L <- n, MAXLEN <- 65535, R <- r
+OS(n, r, t) == INSTANCE OooLanes WITH L <- n, MAXLEN <- 65535, R <- r, TieNew <- t    \* t: pf = "tienew" (AES-CBCS 1:9 on SSE)
 OH(n, b) == INSTANCE OooHmac WITH L <- n, MAXLEN <- 65535, BLK <- b,
                                   PADMIN <- IF b = 128 THEN 17 ELSE 9, Track <- FALSE
 OP(n) == INSTANCE OooPhased WITH L <- n, MAXLEN <- 65535
@@ -54,18 +54,18 @@ PhasesOf(pf, len, aad) ==
 
 UEmpty(un) == IF U[un].fam = "hmac" THEN OH(U[un].L, U[un].blk)!EmptyLanes
               ELSE IF U[un].fam = "phased" THEN OP(U[un].L)!EmptyLanes
-              ELSE IF U[un].fam = "shamb" THEN OM(U[un].L, U[un].blk)!EmptyLanes ELSE OS(U[un].L, U[un].blk)!EmptyLanes
+              ELSE IF U[un].fam = "shamb" THEN OM(U[un].L, U[un].blk)!EmptyLanes ELSE OS(U[un].L, U[un].blk, U[un].pf = "tienew")!EmptyLanes
 USubmit(un, st, j, len, aad) ==
     IF U[un].fam = "phased" THEN LET r == OP(U[un].L)!OSubmit(st, j, PhasesOf(U[un].pf, len, aad)) IN [st |-> r.st, ret |-> r.ret]
     ELSE IF U[un].fam = "shamb" THEN LET r == OM(U[un].L, U[un].blk)!OSubmit(st, j, len) IN [st |-> r.st, ret |-> r.ret]
     ELSE IF U[un].fam = "hmac" THEN LET r == OH(U[un].L, U[un].blk)!OSubmit(st, j, len) IN [st |-> r.st, ret |-> r.ret]
     ELSE IF U[un].fl > 1 /\ len < U[un].fl /\ U[un].ss THEN [st |-> st, ret |-> j]      \* shorter than one block: never enters a lane
-    ELSE LET r == OS(U[un].L, U[un].blk)!OSubmit(st, j, (len \div U[un].fl) * U[un].fl) IN [st |-> r.st, ret |-> r.ret]
+    ELSE LET r == OS(U[un].L, U[un].blk, U[un].pf = "tienew")!OSubmit(st, j, (len \div U[un].fl) * U[un].fl) IN [st |-> r.st, ret |-> r.ret]
 UFlush(un, st) ==
     IF U[un].fam = "phased" THEN LET r == OP(U[un].L)!OFlush(st) IN [st |-> r.st, ret |-> r.ret]
     ELSE IF U[un].fam = "shamb" THEN LET r == OM(U[un].L, U[un].blk)!OFlush(st) IN [st |-> r.st, ret |-> r.ret]
     ELSE IF U[un].fam = "hmac" THEN LET r == OH(U[un].L, U[un].blk)!OFlush(st) IN [st |-> r.st, ret |-> r.ret]
-    ELSE LET r == OS(U[un].L, U[un].blk)!OFlush(st) IN [st |-> r.st, ret |-> r.ret]
+    ELSE LET r == OS(U[un].L, U[un].blk, U[un].pf = "tienew")!OFlush(st) IN [st |-> r.st, ret |-> r.ret]
 UBusyJobs(un, st) == { st.jil[l] : l \in 0 .. U[un].L - 1 } \ {NOJ}
 
 EmptyMachine == [u |-> [un \in DOMAIN U |-> UEmpty(un)], cd |-> {}, ad |-> {}, failed |-> {}, log |-> <<>>]
